@@ -378,15 +378,32 @@ where
             &SendData { data, fport, confirmed },
         )?;
         // Transmit our data packet
-        let ms = self
-            .radio
-            .tx(tx_config, self.radio_buffer.as_ref_for_read())
-            .await
-            .map_err(Error::Radio)?;
+        let ms = match self.radio.tx(tx_config, self.radio_buffer.as_ref_for_read()).await {
+            Ok(ms) => ms,
+            Err(e) => {
+                // The frame may have been on the air: consume its counter so that it is
+                // never reused for another uplink. An exhausted counter space takes precedence
+                // over the radio error: the session cannot be used any more.
+                if let mac::Response::SessionExpired = self.mac.rx2_complete() {
+                    return Ok(SendResponse::SessionExpired);
+                }
+                return Err(Error::Radio(e));
+            }
+        };
 
         // Wait for received data within window
         self.timer.reset();
-        Ok(self.rx_downlink(&Frame::Data, ms, &rx_windows).await?.into())
+        match self.rx_downlink(&Frame::Data, ms, &rx_windows).await {
+            Ok(response) => Ok(response.into()),
+            Err(e) => {
+                // A radio error aborted the receive procedure: the uplink was sent, so its
+                // counter must still be consumed (a skipped counter is harmless).
+                if let mac::Response::SessionExpired = self.mac.rx2_complete() {
+                    return Ok(SendResponse::SessionExpired);
+                }
+                Err(e)
+            }
+        }
     }
 
     /// Take the downlink data from the device. This is typically called after a
